@@ -2,7 +2,7 @@ package main
 
 // C07 at the command-line level: a malformed expression given to any of the
 // expression-valued flags makes benchstat fail with an error; it is never
-// silently accepted.
+// silently accepted; a well-formed one is accepted by every flag alike.
 
 import (
 	"os"
@@ -16,7 +16,12 @@ import (
 type c07FlagCase struct {
 	Flag string // -filter | -table | -row | -col | -ignore
 	Expr string
+	Good bool // the expression is well-formed: the invocation must succeed
 }
+
+// well-formed expressions, including keys that can only be written quoted
+var c07GoodProjections = []string{"goos", `"cpu,rev"`, `goarch,"cpu,rev" pkg`, `"a b"`, "goos@alpha,pkg", `"x@y"`, `"a,b","c,d"`, "goos pkg", `"k(1)",goos`, "città", `"\x2c"`, `goos,"a:b"`}
+var c07GoodFilters = []string{"*", "goos:linux", `"cpu,rev":x OR goos:linux`, `-"a b":c`, "goos:(linux OR darwin)", `goos:"li" OR *`, "città:x OR *", `"k(1)":v OR goos:/^l/`}
 
 var c07BadProjections = []string{".unit", "a@nope", "a@(", "a@()", "a@(b", `"abc`, "a@", "a b@num@", "(", "a,,@", ".config@(x y)", `a@"`, "goos@numeric,pkg", "@alpha", "a@(b))"}
 var c07BadFilters = []string{"a", "a:", ":b", "a:(b", "a:b)", `a:"b`, "a:/b", ".config:x", ".config:x a:b", "a:b OR", "AND", "a:(b OR)", "-", "a:b (", "a b:c"}
@@ -32,6 +37,13 @@ func c07FlagCheck(c c07FlagCase) (v vcase.Verdict) {
 	v.NonTrivial = true
 	v.Label("flag=" + c.Flag)
 	out, errOut, err := runStat([]string{c.Flag, c.Expr, p})
+	if c.Good {
+		v.Label("well_formed")
+		if err != nil {
+			v.Failf("benchstat %s %q failed (%v; stderr %q) although the expression is well-formed", c.Flag, c.Expr, err, clipS(errOut))
+		}
+		return
+	}
 	if err == nil {
 		v.Failf("benchstat %s %q succeeded (stdout %q, stderr %q) although the expression is malformed", c.Flag, c.Expr, clipS(out), clipS(errOut))
 	}
@@ -44,10 +56,16 @@ func c07FlagCheck(c c07FlagCase) (v vcase.Verdict) {
 
 func c07FlagGen(t *rapid.T) c07FlagCase {
 	flag := rapid.SampledFrom([]string{"-filter", "-table", "-row", "-col", "-ignore"}).Draw(t, "flag")
-	if flag == "-filter" {
-		return c07FlagCase{flag, rapid.SampledFrom(c07BadFilters).Draw(t, "bad")}
+	if rapid.Bool().Draw(t, "good") {
+		if flag == "-filter" {
+			return c07FlagCase{flag, rapid.SampledFrom(c07GoodFilters).Draw(t, "goodf"), true}
+		}
+		return c07FlagCase{flag, rapid.SampledFrom(c07GoodProjections).Draw(t, "goodp"), true}
 	}
-	return c07FlagCase{flag, rapid.SampledFrom(c07BadProjections).Draw(t, "bad")}
+	if flag == "-filter" {
+		return c07FlagCase{flag, rapid.SampledFrom(c07BadFilters).Draw(t, "bad"), false}
+	}
+	return c07FlagCase{flag, rapid.SampledFrom(c07BadProjections).Draw(t, "bad"), false}
 }
 
 func TestC07Flags(t *testing.T) { vcase.Run(t, "C07", "flags", c07FlagGen, c07FlagCheck) }
